@@ -410,6 +410,9 @@ func (h *Hashgraph) checkSelfParent(event *Event) error {
 	if err != nil {
 		// First Event
 		if common.IsStore(err, common.Empty) && selfParent == "" {
+			if event.Index() != 0 {
+				return NewSelfParentError("First event index is not 0", false)
+			}
 			return nil
 		}
 		// This is not a normal error
@@ -423,6 +426,16 @@ func (h *Hashgraph) checkSelfParent(event *Event) error {
 	// concurrently by multiple go-routines.
 	if !selfParentLegit {
 		return NewSelfParentError("Self-parent not last known event by creator", true)
+	}
+
+	// The Event must extend its creator's chain by exactly one: the consensus
+	// methods rely on the index being the height of the Event.
+	selfParentEvent, err := h.Store.GetEvent(selfParent)
+	if err != nil {
+		return NewSelfParentError(err.Error(), false)
+	}
+	if event.Index() != selfParentEvent.Index()+1 {
+		return NewSelfParentError("Event index is not self-parent index + 1", false)
 	}
 
 	return nil
